@@ -1154,7 +1154,13 @@ class SetPartition(SetIndex):
             set_name,
             self.frame._meta.columns.dtype,
             kwargs,
-            self.user_divisions,
+            # Carry the divisions along: the lowered plan must not depend on
+            # what the planning process still holds in ``divisions_lru``
+            (
+                self.user_divisions
+                if self.user_divisions is not None
+                else tuple(self._divisions())
+            ),
         )
         return SortIndexBlockwise(index_set)
 
